@@ -29,7 +29,7 @@ UNPROVED = [
     "behaviour for a similarity_metric other than 'cardinality_score' (ValueError inside the loops) is modelled and "
     "compared by correspondence only; every theorem is about the default (only accepted) metric",
     "evaluate(): the theorems (self, shift, permutation) take similarity_metric as not passed; its key set and "
-    "kwargs routing (the `thresh` / `thres` mismatch, the tuple-valued FFP on empty input) belong to C03",
+    "kwargs routing belong to C03 (the model mirrors the repaired routing: thres forced to 0.5 / 0.75)",
 ]
 SUITES = dict(sp.SUITES)
 EXHAUSTIVE = {"quick": False, "thorough": False}
@@ -63,10 +63,6 @@ FPR = [("establishment_FPR", lambda r, e: mp.establishment_FPR(r, e)),
        ("occurrence_FPR", lambda r, e: mp.occurrence_FPR(r, e)),
        ("occurrence_FPR(thres=.5)", lambda r, e: mp.occurrence_FPR(r, e, thres=0.5)),
        ("three_layer_FPR", lambda r, e: mp.three_layer_FPR(r, e))]
-
-
-def empty_side(inp):
-    return sp.n_onsets(inp["ref"]) == 0 or sp.n_onsets(inp["est"]) == 0
 
 
 # C01 -----------------------------------------------------------------------------------------
@@ -253,10 +249,9 @@ def check_all(inp):
             w = check_standard(inp)
             if w:
                 return w
-        if not empty_side(inp):
-            w = check_first_n(inp)
-            if w:
-                return w
+        w = check_first_n(inp)
+        if w:
+            return w
         w = check_shift(dict(inp, c="3/2"))
         if w:
             return w
